@@ -86,8 +86,8 @@ pub fn generate_group(run_seed: u64) -> GroupSpec {
     gen.max_len = *c.pick(&[40u32, 300, 1200, 3000, 6000, 12000]);
     // one group in 48 has chromosome-sized contigs (own stream): thresholds in the code under
     // test (block sizes, "long contig" fast paths) are far above the usual simulated sizes
-    if Rng::new(run_seed ^ 0xB16_C12).below(2000) == 0 {
-        // ... and one group in 2000 a reference of more than a million k-mers
+    if Rng::new(run_seed ^ 0xB16_C12).below(3000) == 0 {
+        // ... and one group in 3000 a reference of more than a million k-mers
         gen.ref_contigs = 2;
         gen.max_len = 1_600_000;
         gen.tiny_pct = 0;
